@@ -101,3 +101,16 @@ EQ_THEOREMS = ["PyOak.GenBridge.zipOrigins_eq_gen", "PyOak.GenBridge.eqImpl_eq_g
 def optional_eq(repo: Path, lean: Path) -> dict:
     """C02: `_eq_fn`"""
     return _optional(repo, lean, "KernelsEq.lean", py2lean_k.generate_eq, EQ_MODULE, EQ_THEOREMS, "_eq_fn")
+
+
+ISEQ_MODULE = "PyOak.Props.GenBridgeIsEq"
+ISEQ_THEOREMS = ["PyOak.GenBridge.isEqual_eq_gen"]
+
+
+def optional_is_equal(repo: Path, lean: Path) -> dict:
+    """C01: `ASTNode.is_equal` (needs KernelsEq.lean for nothing but the namespace prelude; regenerated alongside)"""
+    r = _optional(repo, lean, "KernelsEq.lean", py2lean_k.generate_eq, EQ_MODULE, [], "_eq_fn")
+    res = _optional(repo, lean, "KernelsIsEq.lean", py2lean_k.generate_is_equal, ISEQ_MODULE, ISEQ_THEOREMS, "ASTNode.is_equal")
+    if res["ok"] is False and not res["note"] and not r["ok"]:
+        res["note"] = r["note"]
+    return res
